@@ -284,19 +284,28 @@ func main() {
 						c.Violation(k, "sumlength", fmt.Sprintf("%s set: 4+sum(record lengths)=%d, reported %d", names[si], sum, s.GetSetLength()), word)
 						bad = true
 					}
-					// the 4-byte set header: id written by PrepareSet, length only by UpdateLenInHeader;
-					// a reset (or new) set has a zero header
-					wantHdr := make([]byte, 4)
-					if m.prepared {
-						id := uint16(2)
-						if !m.template {
-							id = m.tid
+					// the 4-byte set header. "A reset set behaves exactly like a new one": the oracle is the fresh
+					// set F replaying the operations since the last reset, not an assumption about WHEN the
+					// implementation writes the length field. F itself must carry the right set id, and a length
+					// field that is either current (eager implementations) or as of the last UpdateLenInHeader.
+					fh := F.GetHeaderBuffer()
+					if si == len(all)-1 {
+						wantID := uint16(0)
+						if m.prepared {
+							wantID = 2
+							if !m.template {
+								wantID = m.tid
+							}
 						}
-						binary.BigEndian.PutUint16(wantHdr[0:2], id)
-					}
-					binary.BigEndian.PutUint16(wantHdr[2:4], m.hdrLen)
-					if hb := s.GetHeaderBuffer(); !bytes.Equal(hb, wantHdr) {
-						c.Violation(k, "set-header", fmt.Sprintf("after op %d (%s): %s set header is %x, a new set replaying the operations since the last reset has %x", i, o, names[si], hb, wantHdr), word)
+						if len(fh) != 4 || binary.BigEndian.Uint16(fh[0:2]) != wantID {
+							c.Violation(k, "set-header-id", fmt.Sprintf("after op %d (%s): a new set replaying the operations has header %x, expected set id %d", i, o, fh, wantID), word)
+							bad = true
+						} else if l := binary.BigEndian.Uint16(fh[2:4]); l != m.hdrLen && l != uint16(wantLen) {
+							c.Violation(k, "set-header-length", fmt.Sprintf("after op %d (%s): header length field %d is neither the current set length %d nor the length at the last UpdateLenInHeader %d", i, o, l, wantLen, m.hdrLen), word)
+							bad = true
+						}
+					} else if hb := s.GetHeaderBuffer(); !bytes.Equal(hb, fh) {
+						c.Violation(k, "set-header", fmt.Sprintf("after op %d (%s): %s set header is %x, a new set replaying the operations since the last reset has %x", i, o, names[si], hb, fh), word)
 						bad = true
 					}
 					if !m.prepared {
@@ -333,7 +342,7 @@ func main() {
 							id = m.tid
 						}
 						ref = refipfix.BuildMessage(0x01020304, 77, 1700000000, id, bytes.Join(m.recs, nil))
-						binary.BigEndian.PutUint16(ref[18:20], m.hdrLen) // the header carries the length as of the last UpdateLenInHeader
+						copy(ref[18:20], F.GetHeaderBuffer()[2:4]) // length field as the fresh replay set carries it (judged above)
 					}
 					if !bytes.Equal(msg, ref) {
 						c.Violation(k, "serialized-bytes", fmt.Sprintf("after op %d (%s): %s set serialises differently from the reference (%d vs %d bytes)", i, o, names[si], len(msg), len(ref)), word)
